@@ -28,8 +28,9 @@ type Sched struct {
 	gates    map[int]chan struct{}
 	at       map[int]string // goroutine -> hook point it is blocked at
 	arrivals chan arrival
-	caller   int // goroutine running Stream
-	reader   int // reader goroutine of the attempt (0: not seen yet)
+	caller   int            // goroutine running Stream (0: the next call has not registered yet)
+	readers  map[string]int // attempt number of the script ("1", "2", ...) -> its reader goroutine
+	cur      string         // attempt the script is in
 	// handler result for the next HandlerOk / HandlerErr step
 	handlerFail bool
 }
@@ -44,7 +45,7 @@ func currentSched() *Sched {
 func setSched(s *Sched) { theSched.Store(s) }
 
 func newSched() *Sched {
-	return &Sched{on: true, gates: map[int]chan struct{}{}, at: map[int]string{}, arrivals: make(chan arrival, 4096)}
+	return &Sched{on: true, gates: map[int]chan struct{}{}, at: map[int]string{}, arrivals: make(chan arrival, 4096), readers: map[string]int{}, cur: "0"}
 }
 
 // enter is called by a goroutine arriving at a hook point: report, then block until granted.
@@ -93,8 +94,8 @@ func (s *Sched) where(g int) string {
 
 var schedWait = 500 * time.Millisecond
 
-// await waits until goroutine g (0: the first goroutine that is not the caller - the reader to be) is blocked at a hook
-// point and returns it ("" on timeout).
+// await waits until goroutine g (0: the first goroutine that is neither the caller nor the reader of an earlier attempt -
+// the reader to be) is blocked at a hook point and returns it ("" on timeout).
 func (s *Sched) await(g *int) string {
 	deadline := time.After(schedWait)
 	for {
@@ -105,7 +106,11 @@ func (s *Sched) await(g *int) string {
 		} else {
 			s.mu.Lock()
 			for og, p := range s.at {
-				if og != s.caller {
+				known := og == s.caller
+				for _, rg := range s.readers {
+					known = known || rg == og
+				}
+				if !known {
 					*g = og
 					s.mu.Unlock()
 					return p
@@ -173,23 +178,33 @@ func (r *scriptRun) run() (followed bool) {
 			}
 		}
 	}
-	readerNext := func() string {
-		s.grant(s.reader)
+	// the reader a step is about: reader steps name their attempt (last element); other steps mean the current attempt's
+	reader := func(st []string) int {
+		if len(st) >= 2 {
+			if g, ok := s.readers[st[len(st)-1]]; ok {
+				return g
+			}
+		}
+		return s.readers[s.cur]
+	}
+	readerNextOf := func(g int) string {
+		s.grant(g)
 		// the goroutine ends after reader.exit: no further arrival
-		g := s.reader
 		return s.await(&g)
 	}
+	readerNext := func() string { return readerNextOf(s.readers[s.cur]) }
 	// one full hand-off of a packet the reader holds: both sides meet, the reader goes back to its read
 	take := func(i int) (string, bool) {
-		if s.where(s.caller) != "parser.select" || s.where(s.reader) != "reader.handoff" {
-			return "", fail(i, "parser.select+reader.handoff", s.where(s.caller)+"+"+s.where(s.reader))
+		rd := s.readers[s.cur]
+		if s.where(s.caller) != "parser.select" || s.where(rd) != "reader.handoff" {
+			return "", fail(i, "parser.select+reader.handoff", s.where(s.caller)+"+"+s.where(rd))
 		}
-		s.grant(s.reader)
+		s.grant(rd)
 		p := callerNext()
 		if p != "parser.gotEvent" {
 			return "", fail(i, "parser.gotEvent", p)
 		}
-		g := s.reader
+		g := rd
 		if q := s.await(&g); q != "reader.handedOff" {
 			return "", fail(i, "reader.handedOff", q)
 		}
@@ -228,6 +243,9 @@ func (r *scriptRun) run() (followed bool) {
 			if p := s.await(&g); p != "stream.call" {
 				return fail(i, "stream.call", p)
 			}
+			n := 0
+			fmt.Sscanf(s.cur, "%d", &n)
+			s.cur = fmt.Sprint(n + 1)
 		case "ConnectOk", "SendSetOk", "SendDumpOk", "CloseSocket", "Break", "end":
 			// no step of their own here (see DESIGN.md): connection stages run together at Spawn, the socket is closed
 			// together with done, the master has sent everything it will send (and closed, if it breaks) up front
@@ -251,8 +269,13 @@ func (r *scriptRun) run() (followed bool) {
 			if p := callerNext(); p != "stream.spawned" {
 				return fail(i, "stream.spawned", p)
 			}
-			if p := s.await(&s.reader); p != "reader.read" {
-				return fail(i, "reader.read", p)
+			ng := 0
+			p0 := s.await(&ng)
+			s.mu.Lock()
+			s.readers[s.cur] = ng
+			s.mu.Unlock()
+			if p0 != "reader.read" {
+				return fail(i, "reader.read", p0)
 			}
 			if p := callerNext(); p != "parser.select" {
 				return fail(i, "parser.select", p)
@@ -274,10 +297,10 @@ func (r *scriptRun) run() (followed bool) {
 			if !in(arg, "ev", "commit", "bad") {
 				want = "reader.readError"
 			}
-			if p := s.where(s.reader); p != "reader.read" {
+			if p := s.where(reader(st)); p != "reader.read" {
 				return fail(i, "reader at reader.read", p)
 			}
-			if q := readerNext(); q != want {
+			if q := readerNextOf(reader(st)); q != want {
 				return fail(i, want, q)
 			}
 		case "ParserTakesEvent":
@@ -338,42 +361,42 @@ func (r *scriptRun) run() (followed bool) {
 			}
 			r.emitReturn()
 		case "ReaderSeesCtx", "ReaderSeesDone":
-			if p := s.where(s.reader); p != "reader.handoff" {
+			if p := s.where(reader(st)); p != "reader.handoff" {
 				return fail(i, "reader.handoff", p)
 			}
 			w := "reader.sawCtx"
 			if st[0] == "ReaderSeesDone" {
 				w = "reader.sawDone"
 			}
-			if q := readerNext(); q != w {
+			if q := readerNextOf(reader(st)); q != w {
 				return fail(i, w, q)
 			}
 		case "ReaderPublish":
-			p := s.where(s.reader)
+			p := s.where(reader(st))
 			if p == "reader.sawDone" {
 				break // nothing is published on this path
 			}
 			if !in(p, "reader.readError", "reader.sawCtx") {
 				return fail(i, "reader.readError|reader.sawCtx", p)
 			}
-			if q := readerNext(); q != "reader.published" {
+			if q := readerNextOf(reader(st)); q != "reader.published" {
 				return fail(i, "reader.published", q)
 			}
 		case "ReaderCloseErr":
-			if p := s.where(s.reader); !in(p, "reader.published", "reader.sawDone") {
+			if p := s.where(reader(st)); !in(p, "reader.published", "reader.sawDone") {
 				return fail(i, "reader.published|reader.sawDone", p)
 			}
-			if q := readerNext(); q != "reader.closeEvents" {
+			if q := readerNextOf(reader(st)); q != "reader.closeEvents" {
 				return fail(i, "reader.closeEvents", q)
 			}
 		case "ReaderCloseEv":
-			if p := s.where(s.reader); p != "reader.closeEvents" {
+			if p := s.where(reader(st)); p != "reader.closeEvents" {
 				return fail(i, "reader.closeEvents", p)
 			}
-			if q := readerNext(); q != "reader.exit" {
+			if q := readerNextOf(reader(st)); q != "reader.exit" {
 				return fail(i, "reader.exit", q)
 			}
-			s.grant(s.reader)
+			s.grant(reader(st))
 		case "Cancel":
 			r.cancel("script")
 		case "ErrorCall":
